@@ -19,6 +19,9 @@ structure DlSt where
 
 instance : HasBad DlSt := ⟨DlSt.bad⟩
 
+/-- equal up to the rounding of the implementation's floating point arithmetic (relative 1e-9) -/
+def closeTo (a b : Rat) : Bool := decide ((if a ≤ b then b - a else a - b) * 1000000000 ≤ 1 + (if 0 ≤ b then b else -b))
+
 def dlStep (init maxD : Rat) (m : DlSt) : Item → DlSt
   | .ev (.fetchOk _ _) => { m with k := 0, inErr := false }
   | .ev (.offsetOk _ _) => { m with k := 0, inErr := false }
@@ -30,48 +33,55 @@ def dlStep (init maxD : Rat) (m : DlSt) : Item → DlSt
   | .ob (.setTimer .retry d) =>
     -- after a failed request: the back-off delay, nothing else.  Otherwise: the immediate refetch (0), or
     -- (a reply whose iteration raised part-way is handled as a failure) the back-off delay.
-    if d == delayAt init maxD m.k then { m with k := m.k + 1 }
-    else if !m.inErr && d == 0 then m
+    if !m.inErr && d == 0 then (if delayAt init maxD m.k == 0 then { m with k := m.k + 1 } else m)
+    else if closeTo d (delayAt init maxD m.k) then { m with k := m.k + 1 }
     else { m with bad := true }
   | _ => m
 
 def delaysOk (init maxD : Rat) (tr : List Item) : Bool := accepts (dlStep init maxD) {} tr
 
-/-! ### With an attempt limit `L > 0` no retry is scheduled after `L` consecutive failed attempts -/
+/-! ### Attempt limit `L > 0`: no retry after `L` consecutive failed attempts; `L = 0`: a retry is always scheduled -/
 
 structure AtSt where
-  limit : Nat
-  savedLimit : Nat := 0
   cf : Nat := 0           -- consecutive failed fetch/offset requests in this run
   savedCf : Nat := 0
   inErr : Bool := false
+  running : Bool := false     -- between an accepted `start()` and the end of `stop()`
+  savedRunning : Bool := false
+  shut : Bool := false        -- a graceful shutdown is in progress (it stops fetching on purpose)
+  savedShut : Bool := false
+  expect : Bool := false      -- a retry must be scheduled before this event is over
   bad : Bool := false
   deriving DecidableEq, Repr
 
 instance : HasBad AtSt := ⟨AtSt.bad⟩
 
-def atFail (m : AtSt) : AtSt := { m with cf := m.cf + 1, inErr := true }
+/-- a fetch/offset request failed with kind `k` -/
+def atFail (limit : Nat) (reset : Option Int) (m : AtSt) (k : ErrKind) : AtSt :=
+  { m with cf := m.cf + 1, inErr := true,
+           expect := limit == 0 && m.running && !m.shut && !(k == .outOfRange && reset.isNone) }
 
-def atShutdown (m : AtSt) : AtSt :=
-  { m with limit := if m.limit == 0 then Afkak.Consts.shutdownRetryAttempts else m.limit, savedLimit := m.limit }
-
-def atStep (m : AtSt) : Item → AtSt
-  | .ev (.start _) => { m with cf := 0, savedCf := m.cf, inErr := false }
-  | .ob .raisedRestart => { m with cf := m.savedCf }
-  | .ev .shutdown => { atShutdown m with inErr := false }
-  | .ob (.act .shutdown) => atShutdown m
-  | .ob .shutdownRejected => { m with limit := m.savedLimit }
+def atStep (limit : Nat) (reset : Option Int) (m : AtSt) : Item → AtSt
+  | .ev (.start _) => { m with cf := 0, savedCf := m.cf, inErr := false, running := true, savedRunning := m.running }
+  | .ob .raisedRestart => { m with cf := m.savedCf, running := m.savedRunning }
+  | .ev .shutdown => { m with shut := true, savedShut := m.shut, inErr := false }
+  | .ob (.act .shutdown) => { m with shut := true, savedShut := m.shut }
+  | .ob .shutdownRejected => { m with shut := m.savedShut }
+  | .ob (.shutdownFired _) => { m with shut := false, running := false }
+  | .ob (.stopReturned _) => { m with running := false }
   | .ev (.fetchOk _ r) => (match r.tail with | .raise _ _ => { m with cf := 1, inErr := true } | _ => { m with cf := 0, inErr := false })
   | .ev (.offsetOk _ _) => { m with cf := 0, inErr := false }
   | .ev (.offsetFetchOk _ _) => { m with cf := 0, inErr := false }
-  | .ev (.fetchErr _ _ _) => atFail m
-  | .ev (.offsetErr _ _ _) => atFail m
-  | .ev (.offsetFetchErr _ _ _) => atFail m
+  | .ev (.fetchErr _ k _) => atFail limit reset m k
+  | .ev (.offsetErr _ k _) => atFail limit reset m k
+  | .ev (.offsetFetchErr _ k _) => atFail limit reset m k
   | .ev _ => { m with inErr := false }
-  | .ob (.setTimer .retry _) => if m.inErr && m.limit != 0 && m.cf ≥ m.limit then { m with bad := true } else m
+  | .ob (.setTimer .retry _) =>
+    if m.inErr && limit != 0 && m.cf ≥ limit then { m with bad := true } else { m with expect := false }
+  | .ob (.probe _ _) => if m.expect then { m with bad := true } else m
   | _ => m
 
-def attemptsOk (limit : Nat) (tr : List Item) : Bool := accepts atStep { limit := limit } tr
+def attemptsOk (limit : Nat) (reset : Option Int) (tr : List Item) : Bool := accepts (atStep limit reset) {} tr
 
 /-! ### Out-of-range ⇒ the configured policy: fail, or restart from earliest / latest -/
 
